@@ -71,7 +71,7 @@ func runC18(c Case, st *Stats) error {
 	}
 	defer func() { h.Close() }()
 	u := UniverseOf(c)
-	oo := obsFor(c.Cfg)
+	oo := obsForCase(c, st)
 	var copies []backupCopy
 	var classes []string
 	nontrivial := false
